@@ -504,7 +504,7 @@ func (er *encRun) roundTrip(stream string, t *target, m protoreflect.Message, fl
 }
 
 // documents longer than this are checked by the direct oracle only
-const maxModelOut = 2600
+const maxModelOut = 20000
 
 func runC01(cfg *vh.Config) error {
 	res := vh.NewResult("C01", cfg.Seed)
@@ -543,14 +543,14 @@ func runC01(cfg *vh.Config) error {
 		g.fill(m, 1)
 		er.roundTrip("big", t, m, flats[t])
 	}
-	for i := 0; i < cfg.Scale(450, 12000); i++ {
+	for i := 0; i < cfg.Scale(600, 12000); i++ {
 		t := pick()
 		g := &msgGen{r: r, maxDepth: 2, fieldPct: vh.Pick(r, []int{3, 6}), maxEntries: 2, emptySubs: 30}
 		m := t.New()
 		g.fill(m, 1)
 		er.roundTrip("sparse", t, m, flats[t])
 	}
-	for i := 0; i < cfg.Scale(600, 16000); i++ {
+	for i := 0; i < cfg.Scale(800, 16000); i++ {
 		t := pick()
 		g := &msgGen{r: r, maxDepth: r.Range(1, 5), fieldPct: vh.Pick(r, []int{10, 20, 35, 60}), maxEntries: r.Range(1, 3), emptySubs: vh.Pick(r, []int{0, 10, 30})}
 		m := t.New()
@@ -559,7 +559,7 @@ func runC01(cfg *vh.Config) error {
 	}
 	// messages of the schemas generated for this run (compiled j5s packages, raw descriptors)
 	if gen := targets[nFixed:]; len(gen) > 0 {
-		for i := 0; i < cfg.Scale(250, 6000); i++ {
+		for i := 0; i < cfg.Scale(400, 6000); i++ {
 			t := vh.Pick(r, gen)
 			g := &msgGen{r: r, maxDepth: r.Range(1, 4), fieldPct: vh.Pick(r, []int{20, 40, 70}), maxEntries: r.Range(1, 3), emptySubs: vh.Pick(r, []int{0, 10, 30})}
 			m := t.New()
